@@ -45,7 +45,39 @@ def run(prog: Program, rep: Report, tier: str) -> None:
     compounding(rep, prog)
 
 
+def effectful_call(prog: Program, eng, e: ast.AST) -> Optional[str]:
+    """A call inside a check whose callee (resolved by name and arity over the repo) writes to one of its arguments
+    (e.g. Axis.unify extends the substitution it is given)."""
+    from ..effects import _Ctx
+    for x in ast.walk(e):
+        if not isinstance(x, ast.Call):
+            continue
+        nm = callee_last(x)
+        if nm is None:
+            continue
+        cands = []
+        if isinstance(x.func, ast.Attribute):
+            cands = [m for m in prog.methods_named(nm) if _Ctx.arity_ok(m, len(x.args), {k.arg for k in x.keywords if k.arg})]
+        elif isinstance(x.func, ast.Name):
+            for m in prog.modules.values():
+                if nm in m.functions and not m.functions[nm].is_lambda and '.' not in nm:
+                    cands.append(m.functions[nm])
+        for g in cands:
+            S = eng.summaries.get(g)
+            if S is None:
+                continue
+            selfn = g.self_name()
+            for ef in S.writes:
+                if ef.root.startswith('P:') and (selfn is None or not ef.root.startswith(f"P:{selfn}")):
+                    return f"calls `{norm(x)[:50]}`; {g.qualname} writes its argument `{ef.root[2:].split('.')[0]}` ({ef.text[:50]})"
+                if ef.root.startswith('P:') and selfn is not None and ef.root.startswith(f"P:{selfn}") and g.cls is not None and g.name not in ('__init__', '__post_init__'):
+                    return f"calls `{norm(x)[:50]}`; {g.qualname} modifies its receiver ({ef.text[:50]})"
+    return None
+
+
 def purity(rep: Report, prog: Program) -> None:
+    from ..effects import effects_for
+    eng = effects_for(prog)
     n_assert = n_debug = 0
     for m in prog.modules.values():
         pm: Dict[int, ast.AST] = {}
@@ -55,7 +87,7 @@ def purity(rep: Report, prog: Program) -> None:
         for n in ast.walk(m.tree):
             if isinstance(n, ast.Assert):
                 n_assert += 1
-                why = impure(n.test) or (impure(n.msg) if n.msg is not None else None)
+                why = impure(n.test) or (impure(n.msg) if n.msg is not None else None) or effectful_call(prog, eng, n.test)
                 # generator expression used as the whole test is always truthy: not an effect, reported as a note only
                 rep.ob('C11-D1 assert-purity', m.name, f"assert {norm(n.test)[:80]}", f"{m.relpath}:{n.lineno}", why is None,
                        'no effect' if why is None else f"the assertion {why}: under python -O the effect disappears and the computation changes")
